@@ -56,7 +56,27 @@ type Ctx struct {
 	Replay *Violation // non-nil when replaying
 	Worker, Workers int
 	Stop   bool // set by an engine whose enumeration is exhausted
+	trace  uint64
+	traceLog []string
 }
+
+// Trace mixes an event of the current run into its trace digest (determinism self-test).
+func (c *Ctx) Trace(s string) {
+	h := c.trace
+	if h == 0 {
+		h = 14695981039346656037
+	}
+	for i := 0; i < len(s); i++ {
+		h ^= uint64(s[i])
+		h *= 1099511628211
+	}
+	c.trace = h
+	if traceVerbose {
+		c.traceLog = append(c.traceLog, s)
+	}
+}
+
+var traceVerbose = os.Getenv("VERIF_DIGEST_VERBOSE") != ""
 
 func (c *Ctx) Count(k string, n int) { c.Res.Counters[k] += n }
 func (c *Ctx) Max(k string, v int) {
@@ -152,9 +172,13 @@ func TestWorker(t *testing.T) {
 		write()
 		return
 	}
-	var pf *os.File
+	var pf, dl *os.File
 	if progress != "" {
 		pf, _ = os.Create(progress)
+	}
+	if p := os.Getenv("VERIF_DIGEST_LOG"); p != "" {
+		dl, _ = os.Create(p)
+		defer dl.Close()
 	}
 	for i := from; i < to; i++ {
 		if time.Since(start) > budget {
@@ -167,8 +191,19 @@ func TestWorker(t *testing.T) {
 		ctx.Seed = zsimrt.Mix(seed, name, uint64(i))
 		r := zsimrt.NewRun(ctx.Seed)
 		zsimrt.Activate(r)
+		ctx.trace = 0
 		e.run(ctx, r)
 		zsimrt.Deactivate()
+		if dl != nil {
+			ctx.Trace(fmt.Sprintf("gen:%016x:%d", r.Digest(), r.NDraws))
+			fmt.Fprintf(dl, "%d %016x\n", i, ctx.trace)
+			if traceVerbose {
+				for _, l := range ctx.traceLog {
+					fmt.Fprintf(dl, "   %s\n", truncate(l, 300))
+				}
+				ctx.traceLog = nil
+			}
+		}
 		if ctx.Stop {
 			break
 		}
